@@ -500,4 +500,44 @@ example : enforceCore cfgD 3 (matcherOf domMatcher demoEnv) = .ok true := by
   simp [cfgD, ruleOutcome, demo_matcher_vals.1, demo_matcher_vals.2.1]
   decide
 
+
+/-! #### … and of `Enforcer.enforce` itself -/
+
+/-- the rule loop's matcher of an enforcer is `matcherOf` of the stored matcher in the enforcer's surroundings -/
+theorem matchFn_eq_matcherOf (e : Enforcer) (call : String → List String → Option Atom) (tbl : String → Option Expr)
+    (req : List Val) (ex : Expr) (h : e.defs.m.lookup "m" = some (some ex)) :
+    e.matchFn "" call tbl req = matcherOf ex (e.env call tbl req []) := by
+  funext rule
+  simp [Enforcer.matchFn, matcherOf, h, Enforcer.env]
+
+/-- **tenant isolation, stated of `enforce`**: two enforcers with the same model definitions, registered role
+functions and switches, whose role managers agree on tenant `d`'s graph and whose stored permission rules have the same
+`d`-rules in the same order, decide every request of tenant `d` alike — whatever else the other tenants stored or
+linked.  (`e'` is `e` after any history confined to other tenants: `view_history`, `graph_history_outside`.) -/
+theorem tenant_isolation_enforce (e e' : Enforcer) (call : String → List String → Option Atom)
+    (tbl : String → Option Expr) (req : List Val) (eff : EffExpr) (ex : Expr) (di : Nat) (d : String)
+    (hdefs : e'.defs = e.defs) (hgf : e'.gfuncs = e.gfuncs)
+    (hm : e.defs.m.lookup "m" = some (some ex)) (hdo : DomOnly di ex)
+    (hreq : req[di]? = some (.atom (.str d)))
+    (hg : e.rm.graph? d = e'.rm.graph? d) (hml : e.rm.maxLevel = e'.rm.maxLevel)
+    (hr : C01.Ready (e.evalCfg "" true) req.length eff) (hr' : C01.Ready (e'.evalCfg "" true) req.length eff)
+    (htok : (e.evalCfg "" true).ptokens = (e'.evalCfg "" true).ptokens)
+    (hne : (e.evalCfg "" true).policy ≠ []) (hne' : (e'.evalCfg "" true).policy ≠ []) (inD : Rule → Bool)
+    (hview : (e.evalCfg "" true).policy.filter inD = (e'.evalCfg "" true).policy.filter inD)
+    (hout : ∀ rule, inD rule = false → rule ∈ (e.evalCfg "" true).policy ∨ rule ∈ (e'.evalCfg "" true).policy →
+      rule.length = (e.evalCfg "" true).ptokens.length ∧ e.matchFn "" call tbl req rule = some false) :
+    e.enforce call tbl req = e'.enforce call tbl req := by
+  unfold Enforcer.enforce
+  have hm' : e'.defs.m.lookup "m" = some (some ex) := by rw [hdefs]; exact hm
+  rw [matchFn_eq_matcherOf e call tbl req ex hm, matchFn_eq_matcherOf e' call tbl req ex hm']
+  have henv : e'.env call tbl req [] = withRm (e.env call tbl req []) e'.rm := by
+    simp [Enforcer.env, withRm, hgf]
+  rw [henv]
+  apply tenant_isolation _ _ req.length eff ex di d (e.env call tbl req []) e'.rm hdo hreq hg hml hr hr' htok rfl
+    hne hne' inD hview
+  intro rule hi hmem
+  have := hout rule hi hmem
+  rw [matchFn_eq_matcherOf e call tbl req ex hm] at this
+  exact this
+
 end Casbin.C07
